@@ -255,3 +255,36 @@ Proof.
     pose proof (group_nonempty _ _ _ _ _ _ Hx F4 En) as Hne. destruct v0 as [|c0 v0']; [contradiction|]. eexists. reflexivity. }
   destruct Hew as (ew & ->). cbn [bind]. discriminate.
 Qed.
+
+(* ---- LotUnpacker and the lot-division step of TractParser are total as well ---- *)
+Lemma lots_loop_raises txt : forall fuel endpos ft st e,
+  (ft = true -> ls_working st <> []) -> unpack_lots_loop (lot_step txt) fuel endpos ft st = Raise e -> e = OutOfFuel.
+Proof.
+  induction fuel as [|f IH]; intros endpos ft st e Hft H; cbn [unpack_lots_loop] in H; [injection H as <-; reflexivity|].
+  destruct (lot_step txt endpos) as [ps|] eqn:Es; [|discriminate].
+  destruct (lot_step_total txt endpos ps Es) as (st0 & z & -> & Ez). cbn [bind] in H. rewrite Ez in H. cbn [bind] in H.
+  assert (G : forall st1, ls_working st1 <> [] ->
+            unpack_lots_loop (lot_step txt) f (rs_endpos st0) (rs_thru st0)
+              (let st2 := match rs_acreage st0 with
+                          | None => st1
+                          | Some a =>
+                              let name := s "L" ++ str_of_Z z in
+                              let '(fl, fll) := match assoc_str name (ls_acres st1) with
+                                                | Some old => let flag := s "dup_lot_acreage<" ++ name ++ s "(" ++ old ++ s ")>" in
+                                                              (ls_flags st1 ++ [flag], ls_flines st1 ++ [(flag, flag)])
+                                                | None => (ls_flags st1, ls_flines st1)
+                                                end in
+                              mk_lot_state (ls_working st1) (dict_set name a (ls_acres st1)) fl fll (ls_word_lot st1)
+                          end in
+               if rs_word st0 && negb (rs_thru st0) then mk_lot_state (ls_working st2) (ls_acres st2) (ls_flags st2) (ls_flines st2) (length (ls_working st2)) else st2)
+            = Raise e -> e = OutOfFuel).
+  { intros st1 Hne. cbv zeta. intros K. apply IH in K; [exact K|]. intros _.
+    destruct (rs_acreage st0) as [a|]; [destruct (assoc_str _ (ls_acres st1))|]; destruct (rs_word st0 && negb (rs_thru st0)); cbn [ls_working]; exact Hne. }
+  destruct ft.
+  - destruct (last_or_in (ls_working st) (Hft eq_refl)) as (prev & El & Hin). rewrite El in H. cbn [bind] in H.
+    destruct (elided z prev) as [ok rng]. destruct ok; cbn [bind] in H; apply G in H; try exact H; cbn [ls_working]; intros K; apply app_eq_nil in K; destruct K as [K _]; exact (Hft eq_refl K).
+  - cbn [bind] in H. apply G in H; [exact H|]. cbn [ls_working]. intros K. apply app_eq_nil in K. destruct K as [_ K]. discriminate K.
+Qed.
+
+Theorem lot_unpacker_total txt e : lot_unpacker txt = Raise e -> e = OutOfFuel.
+Proof. unfold lot_unpacker. apply lots_loop_raises. discriminate. Qed.
